@@ -105,7 +105,15 @@ def case(job):
             return out
         if n0 != n1:
             i = next((k for k, (a, b) in enumerate(zip(n0, n1)) if a != b), min(len(n0), len(n1)))
-            out["problems"].append(f"instruction streams differ at #{i}: plain {n0[i:i + 2]} vs annotated {n1[i:i + 2]} (lengths {len(n0)}/{len(n1)})")
+            what = f"instruction streams differ at #{i}: plain {n0[i:i + 2]} vs annotated {n1[i:i + 2]} (lengths {len(n0)}/{len(n1)})"
+            # does the difference come from the scratch-slot optimiser (a comment op between `store s` and `load s` hides the pair)?
+            off = pt.OptimizeOptions(scratch_slots=False)
+            u0 = normalise(pt.compileTeal(progsem.build(plain), mode, version=version, optimize=off))
+            u1 = normalise(pt.compileTeal(progsem.build(ann), mode, version=version, optimize=off))
+            if u0 == u1:
+                out["known_optimizer"] = what
+            else:
+                out["problems"].append(what)
             out["teal"] = t1
             out["names"] = ann.display_names
     except Exception as e:
@@ -124,9 +132,14 @@ def run(report: Report, tier, seed):
     with ProcessPoolExecutor(max_workers=16) as ex:
         res = list(ex.map(case, jobs, chunksize=4))
     bad = [r for r in res if r["problems"]]
+    known = [r for r in res if r.get("known_optimizer")]
     report.bounded.append(Bounded(function="compileTeal with / without annotations", contract="instruction streams identical apart from comment lines and label spellings",
                                   bound=f"{n} generated programs (seed {seed}) annotated at random statement positions with adversarial texts (line breaks, //, ;, quotes, label look-alikes) incl. subroutine names",
-                                  cases=sum(r["ran"] for r in res), distinct_nontrivial=len({r['seed'] for r in res if r['ran']}), failures=len(bad)))
+                                  cases=sum(r["ran"] for r in res), distinct_nontrivial=len({r['seed'] for r in res if r['ran']}), failures=len(bad) + len(known)))
+    if known:
+        k = known[0]
+        report.violation(Violation(key="comment-blocks-slot-optimisation", what="with the slot optimiser on, " + k["known_optimizer"],
+                                   replay={"input": {"seed": k["seed"], "version": k["version"]}, "names": k.get("names")}, confirmed_native=True))
     report.extra["explanation"] = "P: annotation constructs via fragcheck; B: text-level invariance on generated programs"
     report.settle_refuted(None)
     seen = set()
